@@ -6,7 +6,8 @@ open() without an encoding argument uses the locale's preferred encoding
 relies on it behaves differently there.  This context manager makes every
 text-mode open()/io.open() *without an explicit encoding* behave as it would
 under such a default, for the duration of a call into tdda.  Opens that name
-an encoding, and binary opens, are untouched.
+an encoding, and binary opens, are untouched (encoding='locale', which is what
+pathlib's read_text/write_text pass on when given none, *is* the default).
 """
 
 import builtins
@@ -27,7 +28,8 @@ class DefaultEncoding(object):
 
         def d_open(file, mode='r', buffering=-1, encoding=None, errors=None,
                    newline=None, closefd=True, opener=None):
-            if encoding is None and isinstance(mode, str) and 'b' not in mode \
+            if (encoding is None or encoding == 'locale') \
+                    and isinstance(mode, str) and 'b' not in mode \
                     and not isinstance(file, int):
                 encoding = me.encoding
                 me.used += 1
